@@ -597,6 +597,10 @@ class ObjEvaluator(Evaluator):
                 return self.call_value(v[1], [base], node)       # NAME = property(getter) in the class body
             if v is not NotImplemented:
                 return v
+        if isinstance(base, Obj) and owner is not None and owner in getattr(self.mod, "classes", {}) and not attr.startswith("__"):
+            fk = self.class_function(owner, "__getattr__")
+            if fk is not None:
+                return self.call_bound(fk[0], base, [attr], {}, node)       # the class answers unknown attributes itself
         if isinstance(base, Obj):
             if getattr(base, "pymethods", {}):
                 raise AnalysisError("E7: the model of %s has no attribute `%s` (line %d)" % (base.name.split("#")[0], attr, node.lineno))
@@ -759,7 +763,8 @@ class ObjEvaluator(Evaluator):
             return self.call_bound(f[2], f[1], list(args), dict(kwargs), node)
         if isinstance(f, tuple) and f and f[0] == "pyfunc":
             return f[1](*args, **kwargs)
-        if isinstance(f, Obj) and getattr(f, "cls", None) is not None:
+        from .symeval import NTuple as _NT
+        if isinstance(f, (Obj, _NT)) and getattr(f, "cls", None) is not None:
             # an instance of a class that defines __call__
             m_ = self.object_attribute(f, "__call__", node)
             if m_ is not NotImplemented:
